@@ -1,6 +1,6 @@
 /-
 Model/ReaderSystem.lean — the whole Reader: the front of Model/ReaderFront.lean (FetchMessage / SetOffset / the version
-tags / the `msgs` queue) with, instead of abstract fetchers, one reader loop (Model/ReaderRun.lean) per fetcher ever
+tags / the `msgs` queue) with, instead of abstract fetchers, one reader loop (Model/ReaderLoopLTS.lean) per fetcher ever
 started, each running against the world of Model/ReaderWorld.lean (broker under the fetch contract, lossy network,
 clock, decoder as written).  What a loop pushes into `r.msgs` goes into the queue with the loop's tag.  Core Lean only.
 -/
